@@ -98,4 +98,4 @@ reg(Prop("C17",
          "NewMap and union/difference/intersection of two sets; membership compared at every end point +-1; "
          "non-trivial = both operands have >= 2 intervals (>= 3 raw intervals for NewMap)",
          3000, 300000,
-         trusted=["sort.Slice modelled as a stable merge sort on begin"]))
+         trusted=["sort.Slice modelled as a stable insertion sort on begin"]))
